@@ -56,6 +56,40 @@ def shp(s):
     return 'x'.join(map(str, s)) or 's'
 
 
+def dcls(dts):
+    'coarse element class of a group of operands: bool arithmetic is its own class'
+    return 'bool' if all(d == 'b' for d in dts) else 'num'
+
+
+class Rot:
+    '''independent rotations (kind, slot, flag, dtype, free choice): one shared counter would couple them
+    (e.g. three draws per case -> always the same of three kinds)'''
+
+    def __init__(self):
+        self.k = self.s = self.f = self.d = self.p = -1
+
+    def kind(self, dtype):
+        self.k += 1
+        ks = kinds_for(dtype)
+        return ks[self.k % len(ks)]
+
+    def slot(self):
+        self.s += 1
+        return self.s % 3
+
+    def flag(self):
+        self.f += 1
+        return self.f % 2
+
+    def dtype(self):
+        self.d += 1
+        return DT[(self.d + self.d // 4) % 4]
+
+    def pick(self, seq):
+        self.p += 1
+        return seq[(self.p + self.p // len(seq)) % len(seq)]
+
+
 class Counter:
     def __init__(self, start=0):
         self.n = start - 1
@@ -69,9 +103,10 @@ class Counter:
 
 def gen_shapefn(fname, tier):
     n = Counter()
+    R = Rot()
     for s in SH + [(2, 2, 3)]:
         for d in DT:
-            for k in (kinds_for(d) if s in ((), (2, 3)) else [kind_at(d, n())]):
+            for k in (kinds_for(d) if s in ((), (2, 3)) else [R.kind(d)]):
                 yield case(fname, 'plain', OP(fname, A(k, s, d)))
 
 
@@ -90,10 +125,11 @@ UNARY = {
 def gen_unary(fname, tier, variant=None):
     variant = variant or UNARY[fname]
     n = Counter()
+    R = Rot()
     for s in SH:
         for d in DT:
             for k in kinds_for(d):
-                yield case(fname, d, OP(fname, A(k, s, d, variant, n() % 3)))
+                yield case(fname, d, OP(fname, A(k, s, d, variant, R.slot())))
             if d == 'c' and variant == 'pos':  # branch cut side: negative real part too
                 yield case(fname, d, OP(fname, A('const', s, d, 'any', 1)))
 
@@ -110,41 +146,53 @@ BINARY = {
 }
 
 
-def gen_binary(fname, tier, variants=None, shapes=None, tagprefix=''):
+REPR_PAIRS = [((), ()), ((2, 3), ()), ((3,), (2, 1)), ((2, 3), (1, 3)), ((1,), (2, 2)), ((2, 3), (2, 3)), ((2, 3), (2, 2))]
+
+
+def gen_binary(fname, tier, variants=None, shapes=None, intpow=False):
     v1, v2 = variants or BINARY[fname]
     n = Counter()
+    R = Rot()
     rot = (0,) if tier == 'quick' else (0, 11, 23)
+    dpairs = [(d1, d2) for d1 in DT for d2 in DT]
     for s1 in shapes or SH:
         for s2 in shapes or SH:
-            for d1 in DT:
-                for d2 in DT:
-                    pairs = kindpairs(d1, d2)
-                    i = n()
-                    for r in rot:
-                        k1, k2 = pairs[(i + r) % len(pairs)]
-                        yield case(fname, tagprefix + d1 + d2, OP(fname, A(k1, s1, d1, v1, 0), A(k2, s2, d2, v2, 1)))
+            full = tier != 'quick' or (s1, s2) in REPR_PAIRS
+            j = n()
+            for d1, d2 in dpairs if full else [dpairs[(5 * j + 4 * q + q // 4) % 16] for q in range(4)]:
+                pairs = kindpairs(d1, d2)
+                if intpow and d1 in 'bi' and d2 in 'bi':
+                    # an integer power needs a provably non-negative exponent (numpy: value dependent error)
+                    pairs = [(k1, k2) for k1, k2 in pairs if k2 != 'arg']
+                i = n()
+                for r in rot:
+                    k1, k2 = pairs[(i + r) % len(pairs)]
+                    yield case(fname, d1 + d2, OP(fname, A(k1, s1, d1, v1, 0), A(k2, s2, d2, v2, 1)))
     # ties and identical operands (exact values): comparisons and min/max are decided by equality there
     for s in ((3,), (2, 3)):
         for d in DT:
             for k in kinds_for(d):
+                if intpow and d in 'bi' and k == 'arg':
+                    continue
                 x = A(k, s, d, v2, 0)
-                yield case(fname, tagprefix + d + d, OP(fname, x, x))
-    # python scalars next to a function array
+                yield case(fname, d + d, OP(fname, x, x))
+    # python and numpy scalars next to a function array
     for s in ((), (2, 3)):
         for d in DT:
             for lit in (True, 2, .5, 1 + 2j):
-                k = kind_at(d, n())
+                k = R.kind(d)
                 lt = 'bifc'[[bool, int, float, complex].index(type(lit))]
                 node = ['cplx', lit.real, lit.imag] if lt == 'c' else L(lit)
-                yield case(fname, tagprefix + d + lt + ':pyscalar', OP(fname, A(k, s, d, v1, 0), node))
-                yield case(fname, tagprefix + lt + d + ':pyscalar', OP(fname, node, A(k, s, d, v2, 1)))
+                yield case(fname, d + lt, OP(fname, A(k, s, d, v1, 0), node))
+                if not (intpow and d in 'bi' and lt in 'bi' and k == 'arg'):
+                    yield case(fname, lt + d, OP(fname, node, A(k, s, d, v2, 1)))
                 if s and lt != 'c':
-                    yield case(fname, tagprefix + d + lt + ':npscalar-' + lt, OP(fname, A(k, s, d, v1, 0), ['npscalar', lt, lit]))
+                    yield case('npscalar', lt, OP(fname, A(k, s, d, v1, 0), ['npscalar', lt, lit]))
 
 
 def gen_power(fname, tier):
-    yield from gen_binary(fname, tier, ('pos', 'any'), tagprefix='posbase:')
-    yield from gen_binary(fname, tier, ('any', 'exp'), shapes=[(), (3,), (2, 1), (2, 3)], tagprefix='intexp:')
+    yield from gen_binary(fname, tier, ('pos', 'any'), intpow=True)
+    yield from gen_binary(fname, tier, ('any', 'exp'), shapes=[(), (3,), (2, 1), (2, 3)], intpow=True)
 
 
 # ------------------------------------------------------------------ reductions
@@ -152,7 +200,7 @@ def gen_power(fname, tier):
 def axis_specs(ndim):
     'every axis, negative and out of range by one, every axis tuple, the empty tuple and a repeated axis'
     out = [('none', None)]
-    for a in range(-ndim - 1, ndim + 1):
+    for a in range(-ndim - 1, ndim + 1) if ndim else ():
         ok = -ndim <= a < ndim
         out.append(('int' if ok else 'int-oor', L(a)))
     for r in range(2, ndim + 1):
@@ -169,29 +217,34 @@ def axis_specs(ndim):
 
 def gen_reduce(fname, tier, method=False):
     n = Counter()
+    R = Rot()
     for s in SH + [(2, 2, 3)]:
         for d in DT:
             for tag, ax in axis_specs(len(s)):
-                for k in (kinds_for(d) if tier != 'quick' else [kind_at(d, n())]):
-                    x = A(k, s, d, 'any' if fname != 'numpy.prod' else 'nz', n() % 3)
+                for k in (kinds_for(d) if tier != 'quick' else [R.kind(d)]):
+                    x = A(k, s, d, 'any' if fname != 'numpy.prod' else 'nz', R.slot())
+                    dc = ':' + dcls(d)
                     if ax is None:
-                        yield case(fname, 'noaxis:' + d, OP(fname, x))
-                        yield case(fname, 'axis-none:' + d, OP(fname, x, L(None)))
-                    elif n() % 2:
-                        yield case(fname, 'axis-' + tag + ':' + d, OP(fname, x, ax))
+                        yield case(fname, 'noaxis' + dc, OP(fname, x))
+                        yield case(fname, 'axis-none' + dc, OP(fname, x, L(None)))
+                    elif R.flag():
+                        yield case(fname, 'axis-' + tag + dc, OP(fname, x, ax))
                     else:
-                        yield case(fname, 'axis-' + tag + ':' + d, OP(fname, x, axis=ax))
+                        yield case(fname, 'axis-' + tag + dc, OP(fname, x, axis=ax))
 
 
 def gen_norm(fname, tier):
     n = Counter()
+    R = Rot()
     for s in SH + [(2, 2, 3)]:
         for d in DT:
             for tag, ax in axis_specs(len(s)):
-                k = kind_at(d, n())
-                x = A(k, s, d, 'any', n() % 3)
+                if tag in ('tuple0', 'tuple3', 'tuple-repeated'):
+                    continue  # numpy.linalg.norm accepts None, an int or a 2-tuple; anything else is an argument error, not a shape class
+                k = R.kind(d)
+                x = A(k, s, d, 'any', R.slot())
                 if ax is None:
-                    yield case(fname, 'noaxis:nd{}'.format(min(len(s), 3)), OP(fname, x))
+                    yield case(fname, 'noaxis', OP(fname, x))
                 else:
                     yield case(fname, 'axis-' + tag, OP(fname, x, axis=ax))
     yield case(fname, 'ord', OP(fname, A('const', (3,), 'f'), L(1)))
@@ -210,7 +263,7 @@ INT_ARRAYS = [['np', 'i', [0, 1]], ['np', 'i', [1, 0, 1]], ['np', 'i', [-1, 0]],
 BOOL_ARRAYS = [['np', 'b', [True, False]], ['np', 'b', [True, True]], ['np', 'b', [False, False]], ['np', 'b', [True, False, True]],
                ['np', 'b', [False, False, True]], ['np', 'b', [[True, False, True], [False, True, True]]],
                ['np', 'b', [[True, False], [False, True]]], L([False, True])]
-FN_INDICES = [A('ielem', (), 'i', 'idx', 0), A('ielem', (), 'i', 'nidx', 1), A('ielem', (2,), 'i', 'idx', 0), A('const', (2,), 'i', 'idx', 1), A('arg', (), 'i', 'idx', 0)]
+FN_INDICES = [A('ielem', (), 'i', 'idx', 0), A('ielem', (), 'i', 'nidx', 1), A('ielem', (2,), 'i', 'idx', 0), A('const', (2,), 'i', 'idx', 1), A('const', (), 'i', 'nidx', 0)]
 
 
 def _item_value(it):
@@ -287,6 +340,12 @@ def index_class(items, shape):
         feats.add('adv1')
     elif nadv > 1:
         feats.add('advN')
+    if nadv:
+        # numpy: integers next to an index array are advanced indices too; when the advanced indices are not
+        # adjacent the broadcast dimensions move to the front of the result
+        pos = [i for i, it in enumerate(items) if it[0] in ('arr', 'np') or (it[0] == 'lit' and (isinstance(it[1], list) or type(it[1]) in (int, bool)))]
+        if pos and pos[-1] - pos[0] + 1 != len(pos):
+            feats.add('adv-separated')
     return '+'.join(sorted(feats)) or 'basic'
 
 
@@ -297,7 +356,8 @@ def _gi(x, items, shape, bare=False):
 
 def gen_getitem(fname, tier):
     n = Counter()
-    singles = [L(i) for i in range(-4, 4)] + _slices() + [['ell'], ['new']] + INT_ARRAYS + BOOL_ARRAYS + FN_INDICES + [L(True)]
+    R = Rot()
+    singles = [L(i) for i in range(-4, 4)] + _slices() + [['sl', None, 5, None], ['sl', -5, None, None], ['sl', 3, None, None], ['sl', 4, 5, None], ['sl', None, -4, None], ['ell'], ['new']] + INT_ARRAYS + BOOL_ARRAYS + FN_INDICES + [L(True)]
     full = ['sl', None, None, None]
 
     def operand(shape, i):
@@ -345,21 +405,22 @@ def _targets(size):
 
 def gen_reshape(fname, tier):
     n = Counter()
+    R = Rot()
     sources = [(6,), (2, 3), (3, 2), (1, 6), (6, 1), (2, 1, 3), (1, 2, 3), (2, 3, 1), (3, 1, 2), (1, 1, 6)]
     for src in sources + ([(2, 2, 3), (12,), (3, 4)] if tier != 'quick' else [(2, 2, 3)]):
         size = int(numpy.prod(src))
         tg = _targets(size)
         for t in tg:
-            d = DT[n() % 4]
-            x = A(kind_at(d, n()), src, d, 'any', n() % 3)
+            d = R.dtype()
+            x = A(R.kind(d), src, d, 'any', R.slot())
             yield case(fname, 'explicit', OP(fname, x, TUP(*map(L, t))))
             if size == 6 or tier != 'quick':
                 for i in range(len(t)):
                     u = list(t)
                     u[i] = -1
-                    x = A(kind_at(d, n()), src, d, 'any', n() % 3)
+                    x = A(R.kind(d), src, d, 'any', R.slot())
                     yield case(fname, 'infer', OP(fname, x, TUP(*map(L, u))))
-        x = A(kind_at('f', n()), src, 'f')
+        x = A(R.kind('f'), src, 'f')
         yield case(fname, 'int', OP(fname, x, L(size)))
         yield case(fname, 'infer', OP(fname, x, L(-1)))
         yield case(fname, 'list', OP(fname, x, LST(L(size // 2), L(2)) if size % 2 == 0 else LST(L(size))))
@@ -367,19 +428,21 @@ def gen_reshape(fname, tier):
             yield case(fname, 'badsize', OP(fname, x, TUP(*map(L, bad))))
     for s in ((), (1,), (1, 1)):
         for t in ((), (1,), (1, 1), (-1,), (1, -1), (2,)):
-            yield case(fname, 'size1', OP(fname, A(kind_at('i', n()), s, 'i'), TUP(*map(L, t))))
+            yield case(fname, 'size1', OP(fname, A(R.kind('i'), s, 'i'), TUP(*map(L, t))))
 
 
 def gen_ravel(fname, tier):
     n = Counter()
+    R = Rot()
     for s in SH + [(2, 2, 3), (3, 2), (2, 1, 3)]:
         for d in DT:
             for k in kinds_for(d):
-                yield case(fname, 'plain', OP(fname, A(k, s, d, 'any', n() % 3)))
+                yield case(fname, 'plain', OP(fname, A(k, s, d, 'any', R.slot())))
 
 
 def gen_transpose(fname, tier):
     n = Counter()
+    R = Rot()
     for s in SH + [(2, 2, 3), (3, 1, 2)]:
         nd = len(s)
         perms = [list(p) for p in itertools.permutations(range(nd))]
@@ -389,14 +452,14 @@ def gen_transpose(fname, tier):
                     continue
                 q = [a - nd for a in p] if neg else p
                 for d in ('i', 'f') if tier == 'quick' else DT:
-                    x = A(kind_at(d, n()), s, d, 'any', n() % 3)
-                    yield case(fname, 'perm', OP(fname, x, TUP(*map(L, q))))
+                    x = A(R.kind(d), s, d, 'any', R.slot())
+                    yield case(fname, 'perm-negative' if neg else 'perm', OP(fname, x, TUP(*map(L, q))))
         for d in DT:
-            x = A(kind_at(d, n()), s, d, 'any', n() % 3)
+            x = A(R.kind(d), s, d, 'any', R.slot())
             yield case(fname, 'default', OP(fname, x))
             yield case(fname, 'default', OP(fname, x, L(None)))
             yield case(fname, 'list', OP(fname, x, LST(*map(L, perms[-1]))))
-        x = A(kind_at('f', n()), s, 'f')
+        x = A(R.kind('f'), s, 'f')
         bads = [list(range(nd)) + [0], list(range(nd + 1)), [0] * nd if nd > 1 else [1], [nd] + list(range(1, nd)) if nd else [0], list(range(nd - 1)) if nd else [0, 1]]
         for b in bads:
             if sorted(b) != list(range(nd)):
@@ -405,13 +468,14 @@ def gen_transpose(fname, tier):
 
 def gen_swapaxes(fname, tier):
     n = Counter()
+    R = Rot()
     for s in SH + [(2, 2, 3)]:
         nd = len(s)
         for a in range(-nd - 1, nd + 1):
             for b in range(-nd - 1, nd + 1):
                 ok = -nd <= a < nd and -nd <= b < nd
-                d = DT[n() % 4]
-                x = A(kind_at(d, n()), s, d, 'any', n() % 3)
+                d = R.dtype()
+                x = A(R.kind(d), s, d, 'any', R.slot())
                 yield case(fname, 'axes' if ok else 'axes-oor', OP(fname, x, L(a), L(b)))
 
 
@@ -419,6 +483,7 @@ def gen_swapaxes(fname, tier):
 
 def gen_join(fname, tier):
     n = Counter()
+    R = Rot()
     stack = fname == 'numpy.stack'
     for s in SH + [(2, 2, 3)]:
         nd = len(s)
@@ -426,11 +491,11 @@ def gen_join(fname, tier):
         for axis in range(-hi - 1, hi + 1):
             ok = -hi <= axis < hi and (stack or nd)
             for count in (1, 2, 3):
-                for dts in (('i',) * count, ('f',) * count, tuple(DT[(n() + j) % 4] for j in range(count))):
-                    arrs = [A(kind_at(d, n()), s, d, 'any', j) for j, d in enumerate(dts)]
+                for dts in (('i',) * count, ('f',) * count, tuple(R.dtype() for j in range(count))):
+                    arrs = [A(R.kind(d), s, d, 'any', j) for j, d in enumerate(dts)]
                     tag = ('axis' if ok else 'axis-oor') + ':' + ('same' if len(set(dts)) == 1 else 'mixed')
-                    yield case(fname, tag, OP(fname, LST(*arrs), L(axis)) if n() % 2 else OP(fname, LST(*arrs), axis=L(axis)))
-        arrs = [A(kind_at('f', n()), s, 'f', 'any', j) for j in range(2)]
+                    yield case(fname, tag, OP(fname, LST(*arrs), L(axis)) if R.flag() else OP(fname, LST(*arrs), axis=L(axis)))
+        arrs = [A(R.kind('f'), s, 'f', 'any', j) for j in range(2)]
         yield case(fname, 'default-axis', OP(fname, LST(*arrs)))
         yield case(fname, 'tuple-seq', OP(fname, TUP(*arrs), L(0)))
         if not stack:
@@ -441,12 +506,12 @@ def gen_join(fname, tier):
         nd = len(shapes[0])
         for axis in range(-nd, max(nd, 1)):
             for dts in ('ii', 'fi', 'cb', 'bf'):
-                arrs = [A(kind_at(dts[j % 2], n()), s, dts[j % 2], 'any', j) for j, s in enumerate(shapes)]
+                arrs = [A(R.kind(dts[j % 2]), s, dts[j % 2], 'any', j) for j, s in enumerate(shapes)]
                 yield case(fname, 'diffshape:' + ('same' if dts[0] == dts[1] else 'mixed'), OP(fname, LST(*arrs), L(axis)))
     # raw numpy arrays and python lists in the sequence next to function arrays
     for s in ((3,), (2, 3)):
         for d in DT:
-            yield case(fname, 'with-raw', OP(fname, LST(A(kind_at(d, n()), s, d), A('raw', s, 'f', 'any', 1)), L(0)))
+            yield case(fname, 'with-raw', OP(fname, LST(A(R.kind(d), s, d), A('raw', s, 'f', 'any', 1)), L(0)))
     yield case(fname, 'with-list', OP(fname, LST(A('geom', (3,), 'f'), L([1., 2., 3.])), L(0)))
     yield case(fname, 'empty-seq', OP(fname, LST(), L(0)))
 
@@ -455,6 +520,7 @@ def gen_join(fname, tier):
 
 def gen_take(fname, tier):
     n = Counter()
+    R = Rot()
     for s in [(3,), (2, 3), (2, 2, 3), (2, 1)]:
         nd = len(s)
         for axis in [None] + list(range(-nd - 1, nd + 1)):
@@ -462,8 +528,10 @@ def gen_take(fname, tier):
             idxs = [L(0), L(-1), L(length), L(-length - 1), ['np', 'i', [length - 1, 0]], ['np', 'i', [[0, -1], [-length, 0]]], L([0, 0, -1]),
                     ['np', 'i', [0, length]], ['np', 'i', []], A('ielem', (), 'i', 'idx', 0), A('ielem', (2,), 'i', 'nidx', 1), A('const', (2, 2), 'i', 'idx', 0)]
             for ix in idxs:
-                d = DT[n() % 4]
-                x = A(kind_at(d, n()), s, d, 'any', n() % 3)
+                if ix[0] == 'arr' and length < 2:
+                    continue
+                d = R.dtype()
+                x = A(R.kind(d), s, d, 'any', R.slot())
                 oor = axis is not None and not -nd <= axis < nd
                 v = _item_value(ix)
                 cls = 'fnidx' if ix[0] == 'arr' else 'int' if isinstance(v, int) else 'arr'
@@ -477,19 +545,20 @@ def gen_take(fname, tier):
                 if axis is None:
                     yield case(fname, tag, OP(fname, x, ix))
                 else:
-                    yield case(fname, tag, OP(fname, x, ix, L(axis)) if n() % 2 else OP(fname, x, ix, axis=L(axis)))
+                    yield case(fname, tag, OP(fname, x, ix, L(axis)) if R.flag() else OP(fname, x, ix, axis=L(axis)))
 
 
 def gen_compress(fname, tier):
     n = Counter()
+    R = Rot()
     for s in [(3,), (2, 3), (2, 2, 3)]:
         nd = len(s)
         for axis in [None] + list(range(-nd, nd)):
             length = int(numpy.prod(s)) if axis is None else s[axis]
             conds = [[bool((i + j) % 2) for i in range(length)] for j in range(2)] + [[True] * length, [False] * length, [True] * (length - 1), [False] * length + [True], [False] * length + [False]]
             for ic, c in enumerate(conds):
-                d = DT[n() % 4]
-                x = A(kind_at(d, n()), s, d, 'any', n() % 3)
+                d = R.dtype()
+                x = A(R.kind(d), s, d, 'any', R.slot())
                 cls = 'full' if len(c) == length else 'short' if len(c) < length else 'long'
                 if not any(c):
                     cls += '-none'
@@ -500,94 +569,114 @@ def gen_compress(fname, tier):
 
 def gen_repeat(fname, tier):
     n = Counter()
+    R = Rot()
     for s in SH + [(2, 1, 3)]:
         nd = len(s)
-        for axis in range(-nd - 1, nd + 1):
+        for axis in range(-nd - 1, nd + 1) if nd else ():
             for reps in (1, 2, 3, 0):
-                d = DT[n() % 4]
-                x = A(kind_at(d, n()), s, d, 'any', n() % 3)
+                d = R.dtype()
+                x = A(R.kind(d), s, d, 'any', R.slot())
                 ok = -nd <= axis < nd
                 single = ok and s[axis] == 1
                 tag = 'axis-oor' if not ok else ('singleton' if single else 'nonsingleton') + (':zero' if reps == 0 else '')
                 yield case(fname, tag, OP(fname, x, L(reps), L(axis)))
-        yield case(fname, 'axis-none', OP(fname, A(kind_at('f', n()), s, 'f'), L(2)))
+        yield case(fname, 'axis-none', OP(fname, A(R.kind('f'), s, 'f'), L(2)))
 
 
 def gen_broadcast_to(fname, tier):
     n = Counter()
+    R = Rot()
     targets = [(), (1,), (3,), (2, 1), (1, 3), (2, 3), (2, 2), (2, 2, 3), (1, 2, 3), (3, 2, 3), (2, 3, 1), (0,), (2, 0)]
     for s in SH:
         for t in targets:
-            d = DT[n() % 4]
-            x = A(kind_at(d, n()), s, d, 'any', n() % 3)
+            d = R.dtype()
+            x = A(R.kind(d), s, d, 'any', R.slot())
             tag = 'zero' if 0 in t else 'plain'
             yield case(fname, tag, OP(fname, x, TUP(*map(L, t))))
-        yield case(fname, 'int', OP(fname, A(kind_at('f', n()), s, 'f'), L(3)))
+        yield case(fname, 'int', OP(fname, A(R.kind('f'), s, 'f'), L(3)))
 
 
 def gen_diagonal(fname, tier):
     n = Counter()
+    R = Rot()
     trace = fname == 'numpy.trace'
-    for s in [(2, 2), (3, 3), (2, 3), (3, 2), (2, 2, 3), (2, 3, 2), (3, 2, 2), (1, 1), (3,), ()]:
+    shapes = [(2, 2), (3, 3), (2, 3), (3, 2), (2, 2, 3), (3, 2, 2), (1, 1), (3,), ()] + ([(2, 3, 2)] if tier != 'quick' else [])
+    offsets = range(-3, 4) if tier != 'quick' and not trace else (-2, -1, 0, 1, 2) if not trace else (-1, 0, 1, 2)
+    for s in shapes:
         nd = len(s)
-        x0 = lambda d: A(kind_at(d, n()), s, d, 'any', n() % 3)
+        x0 = lambda d: A(R.kind(d), s, d, 'any', R.slot())
         for d in DT:
-            yield case(fname, ('default:' + ('square' if nd >= 2 and s[0] == s[1] else 'nonsquare')) if nd >= 2 else 'lowdim', OP(fname, x0(d)))
+            yield case(fname, ('square' if s[0] == s[1] else 'nonsquare') if nd >= 2 else 'lowdim', OP(fname, x0(d)))
         if nd < 2:
             continue
         for a1 in range(-nd, nd):
             for a2 in range(-nd, nd):
                 same = a1 % nd == a2 % nd
                 sq = s[a1] == s[a2]
-                for off in range(-3, 4):
-                    d = DT[n() % 4]
-                    big = abs(off) >= min(s[a1], s[a2]) + (0 if sq else abs(s[a1] - s[a2]))
-                    tag = 'same-axis' if same else ('square' if sq else 'nonsquare') + (':offset' if off else '') + (':empty' if off and abs(off) >= max(s[a1], s[a2]) else '')
-                    yield case(fname, tag, OP(fname, x0(d), L(off), L(a1), L(a2)) if n() % 2 else OP(fname, x0(d), offset=L(off), axis1=L(a1), axis2=L(a2)))
+                for off in offsets:
+                    d = R.dtype()
+                    tag = 'same-axis' if same else 'nonsquare' if not sq else 'square' + (':offset-empty' if abs(off) >= s[a1] else ':offset' if off else '')
+                    yield case(fname, tag, OP(fname, x0(d), L(off), L(a1), L(a2)) if R.flag() else OP(fname, x0(d), offset=L(off), axis1=L(a1), axis2=L(a2)))
         yield case(fname, 'axis-oor', OP(fname, x0('f'), L(0), L(0), L(nd)))
 
 
 # ------------------------------------------------------------------ products
 
+def _contraction_class(s1, s2):
+    if not s1 or not s2:
+        return 'scalar'
+    a = s1[-1]
+    b = s2[-2] if len(s2) > 1 else s2[-1]
+    return 'match' if a == b else 'mismatch-1' if 1 in (a, b) else 'mismatch'
+
+
 def gen_matmul(fname, tier):
     n = Counter()
+    R = Rot()
     shapes = [(), (3,), (2,), (2, 3), (3, 2), (2, 2), (1, 3), (3, 1), (2, 2, 3), (2, 3, 2), (1, 3, 2), (3, 3)]
+    dps = (('f', 'f'), ('i', 'i'), ('i', 'f'), ('c', 'f'), ('f', 'c'), ('b', 'b'), ('b', 'i'), ('c', 'c'))
     for s1 in shapes:
         for s2 in shapes:
-            for d1, d2 in (('f', 'f'), ('i', 'i'), ('i', 'f'), ('c', 'f'), ('f', 'c'), ('b', 'b'), ('b', 'i'), ('c', 'c')):
+            j = n()
+            for d1, d2 in dps if tier != 'quick' else [dps[(j + 3 * q) % 8] for q in range(3)]:
                 pairs = kindpairs(d1, d2)
-                k1, k2 = pairs[n() % len(pairs)]
-                tag = ('scalar:' if not s1 or not s2 else 'nd{}{}:'.format(min(len(s1), 3), min(len(s2), 3))) + d1 + d2
+                k1, k2 = R.pick(pairs)
+                tag = _contraction_class(s1, s2) + ':' + dcls(d1 + d2)
                 yield case(fname, tag, OP(fname, A(k1, s1, d1, 'any', 0), A(k2, s2, d2, 'any', 1)))
 
 
 def gen_vdot(fname, tier):
     n = Counter()
+    R = Rot()
     shapes = [(), (1,), (3,), (2, 3), (3, 2), (1, 3), (6,), (2, 2)]
     for s1 in shapes:
         for s2 in shapes:
             for d1, d2 in (('f', 'f'), ('i', 'f'), ('c', 'f'), ('f', 'c'), ('c', 'c'), ('b', 'b'), ('i', 'i')):
                 pairs = kindpairs(d1, d2)
-                k1, k2 = pairs[n() % len(pairs)]
-                tag = ('same-shape:' if s1 == s2 else 'diff-shape:') + d1 + d2
+                k1, k2 = R.pick(pairs)
+                size = lambda s: int(numpy.prod(s, dtype=int))
+                tag = ('same-shape' if s1 == s2 else 'same-size' if size(s1) == size(s2) else 'diff-size') + ':' + dcls(d1 + d2)
                 yield case(fname, tag, OP(fname, A(k1, s1, d1, 'any', 0), A(k2, s2, d2, 'any', 1)))
 
 
 def gen_cross(fname, tier):
+    # numpy >= 2.5 rejects 2-vectors (older releases accepted them with a deprecation warning): only 3-vectors are unambiguous
     n = Counter()
-    for s1, s2 in [((3,), (3,)), ((2, 3), (2, 3)), ((2, 3), (3,)), ((3,), (2, 3)), ((2, 1, 3), (1, 2, 3)), ((1, 3), (2, 3)), ((2,), (2,)), ((3, 2), (3, 2)), ((3, 2), (2,)),
-                   ((3,), (2,)), ((2,), (3,)), ((2, 2), (2, 3)), ((4,), (4,)), ((3,), ()), ((2, 3), (3, 3))]:
+    R = Rot()
+    for s1, s2 in [((3,), (3,)), ((2, 3), (2, 3)), ((2, 3), (3,)), ((3,), (2, 3)), ((2, 1, 3), (1, 2, 3)), ((1, 3), (2, 3)), ((4,), (4,)), ((3,), ()), ((2, 3), (3, 3)), ((3,), (4,))]:
         dim = (s1[-1] if s1 else 0, s2[-1] if s2 else 0)
-        cls = 'dim3' if dim == (3, 3) else 'dim2' if dim == (2, 2) else 'dim-mixed' if set(dim) == {2, 3} else 'dim-bad'
+        cls = 'dim3' if dim == (3, 3) else 'dim-bad'
         for d1, d2 in (('f', 'f'), ('i', 'i'), ('i', 'f'), ('c', 'f'), ('c', 'c')):
             pairs = kindpairs(d1, d2)
-            k1, k2 = pairs[n() % len(pairs)]
-            yield case(fname, cls + ':' + d1 + d2, OP(fname, A(k1, s1, d1, 'any', 0), A(k2, s2, d2, 'any', 1)))
+            k1, k2 = R.pick(pairs)
+            yield case(fname, cls + ':' + ('int' if d1 + d2 == 'ii' else 'num'), OP(fname, A(k1, s1, d1, 'any', 0), A(k2, s2, d2, 'any', 1)))
     for sa, sb, kw in [((3, 2), (2, 3), dict(axisa=0, axisb=1)), ((3, 2), (2, 3), dict(axisa=0, axisb=1, axisc=0)), ((3, 2), (3, 2), dict(axis=0)), ((2, 3), (2, 3), dict(axisc=0)),
-                       ((2, 3), (3, 2), dict(axisb=-2, axisc=-2)), ((2, 1, 3), (3, 1, 4), dict(axisa=2, axisb=0, axisc=1)), ((2, 3), (2, 3), dict(axis=2)), ((2, 2), (2, 2), dict(axis=0))]:
-        for d in 'fi':
-            k1, k2 = kindpairs(d, 'f')[n() % len(kindpairs(d, 'f'))]
-            yield case(fname, 'axes:' + ','.join(sorted(kw)), OP(fname, A(k1, sa, d, 'any', 0), A(k2, sb, 'f', 'any', 1), **{k: L(v) for k, v in kw.items()}))
+                       ((2, 3), (3, 2), dict(axisb=-2, axisc=-2)), ((2, 1, 3), (3, 1, 4), dict(axisa=2, axisb=0, axisc=1)), ((2, 3), (2, 3), dict(axis=2)), ((3, 3), (3, 3), dict(axis=0))]:
+        for k1, k2 in (('const', 'geom'), ('basis', 'arg'), ('geom', 'raw'), ('raw', 'ielem')):
+            d1 = 'f' if k1 != 'ielem' else 'i'
+            d2 = 'f' if k2 != 'ielem' else 'i'
+            tag = 'axes' + (':raw' if 'raw' in (k1, k2) else '')
+            yield case(fname, tag, OP(fname, A(k1, sa, d1, 'any', 0), A(k2, sb, d2, 'any', 1), **{k: L(v) for k, v in kw.items()}))
 
 
 EINSUM = [
@@ -609,15 +698,16 @@ EINSUM = [
 
 def gen_einsum(fname, tier):
     n = Counter()
+    R = Rot()
     for sig, shapes in EINSUM:
         for dts in ('f' * 3, 'i' * 3, 'c' * 3, 'ifc', 'bbb', 'fib'):
-            ks = [kinds_for(d, True)[(n() + 2 * j) % len(kinds_for(d, True))] for j, d in enumerate(dts[:len(shapes)])]
+            ks = [R.pick(kinds_for(d, True)) for j, d in enumerate(dts[:len(shapes)])]
             if all(k == 'raw' for k in ks):
                 ks[0] = 'const'
             ops = [A(k, s, d, 'any', j) for j, (k, s, d) in enumerate(zip(ks, shapes, dts))]
             cls = 'ellipsis' if '...' in sig else 'explicit' if '->' in sig else 'implicit'
             rep = any(part.replace('.', '').count(c) > 1 for part in sig.split('->')[0].split(',') for c in set(part.replace('.', '')))
-            tag = '{}op:{}{}:{}'.format(len(shapes), cls, '+repeated' if rep else '', ''.join(sorted(set(dts[:len(shapes)]))))
+            tag = 'bool' if dcls(dts[:len(shapes)]) == 'bool' else '{}op:{}{}'.format(len(shapes), cls, '+repeated' if rep else '')
             yield case(fname, tag, OP(fname, L(sig), *ops))
 
 
@@ -629,6 +719,7 @@ def gen_dot(fname, tier):
 
 def gen_linalg(fname, tier):
     n = Counter()
+    R = Rot()
     variant = 'sym' if fname == 'numpy.linalg.eigh' else 'mat'
     for s in [(2, 2), (3, 3), (1, 1), (2, 2, 2), (3, 2, 2), (2, 3), (3, 2), (3,), (), (2, 2, 3)]:
         sq = len(s) >= 2 and s[-1] == s[-2]
@@ -636,20 +727,21 @@ def gen_linalg(fname, tier):
             for k in kinds_for(d):
                 if k == 'ielem' and fname in ('numpy.linalg.eig', 'numpy.linalg.eigh') and len(s) > 2:
                     continue
-                tag = ('square' if sq else 'nonsquare') + ('-stacked' if len(s) > 2 else '') + ':' + d
-                yield case(fname, tag, OP(fname, A(k, s, d, variant if sq else 'any', n() % 3)))
+                tag = 'square:' + ('int' if d in 'bi' else 'num') if sq else 'nonsquare' 
+                yield case(fname, tag, OP(fname, A(k, s, d, variant if sq else 'any', R.slot())))
 
 
 # ------------------------------------------------------------------ choose / interp / searchsorted
 
 def gen_choose(fname, tier):
     n = Counter()
+    R = Rot()
     for sa in [(), (3,), (2, 3), (2, 1), (1, 3)]:
         for nch, shapes in [(2, [(), ()]), (2, [(3,), (3,)]), (2, [(2, 3), (2, 3)]), (2, [(2, 1), (1, 3)]), (2, [(2, 3), ()]), (3, [(3,), (1,), ()]), (2, [(2, 2), (2, 2)]), (2, [(2, 3), (3,)])]:
             for dts in ('ff', 'ii', 'fi', 'cf', 'bb', 'ib'):
-                for ka in ('ielem', 'const', 'arg'):
-                    a = A(ka, sa, 'i', 'idx', n() % 2)
-                    chs = [A(kinds_for(dts[j % 2], True)[(n() + j) % len(kinds_for(dts[j % 2], True))], s, dts[j % 2], 'any', j) for j, s in enumerate(shapes)]
+                for ka in (('ielem', 'const', 'arg') if tier != 'quick' else (('ielem', 'const', 'arg')[R.slot()],)):
+                    a = A(ka, sa, 'i', 'idx', R.flag())
+                    chs = [A(R.pick(kinds_for(dts[j % 2], True)), s, dts[j % 2], 'any', j) for j, s in enumerate(shapes)]
                     tag = 'choices{}:{}'.format(nch, 'same' if dts[0] == dts[1] else 'mixed')
                     yield case(fname, tag, OP(fname, a, LST(*chs)))
     # boolean selector and method form
@@ -666,14 +758,14 @@ FP = [[0., 1., 0.], [2., -1., .5], [1., 3., 2., 2., -1.], [4.], [1., 3.]]
 
 def gen_interp(fname, tier):
     n = Counter()
+    R = Rot()
     for s in SH:
         for xp, fp in zip(XP, FP):
             for kw in ({}, {'left': -10.}, {'right': 10.}, {'left': -10., 'right': 10.}):
                 for d in 'fi':
-                    for k in kinds_for(d):
-                        x = A(k, s, d, 'any', n() % 3)
-                        exact = k in ('const', 'arg', 'raw') or d == 'i'
-                        tag = ('knots-possible' if exact else 'generic') + (':lr' if kw else '')
+                    for k in (kinds_for(d) if tier != 'quick' else [R.kind(d)]):
+                        x = A(k, s, d, 'any', R.slot())
+                        tag = 'lr' if kw else 'plain' 
                         yield case(fname, tag, OP(fname, x, L(xp), L(fp), **{a: L(b) for a, b in kw.items()}))
     x = A('geom', (3,), 'f')
     yield case(fname, 'array-knots', OP(fname, x, ['np', 'f', XP[0]], ['np', 'f', FP[0]]))
@@ -687,14 +779,15 @@ SORTED = [[0., .25, .5, 1.5, 2.], [-1.25, -.75, .5, .5, 2., 3.], [1.], [], [-3, 
 
 def gen_searchsorted(fname, tier):
     n = Counter()
+    R = Rot()
     for s in SH:
         for a in SORTED:
             for side in (None, 'left', 'right'):
                 for d in 'fib':
-                    for k in kinds_for(d):
-                        v = A(k, s, d, 'any', n() % 3)
+                    for k in (kinds_for(d) if tier != 'quick' else [R.kind(d)]):
+                        v = A(k, s, d, 'any', R.slot())
                         kw = {} if side is None else {'side': L(side)}
-                        yield case(fname, 'side-' + str(side) + ':' + d, OP(fname, L(a) if n() % 2 else ['np', 'f', a], v, **kw))
+                        yield case(fname, ('haystack-empty' if not a else 'side-' + str(side)), OP(fname, L(a) if R.flag() else ['np', 'f', a], v, **kw))
     v = A('geom', (2, 3), 'f')
     unsorted = [.2, .8, .4, 0., .6, 1.]
     order = [3, 0, 2, 4, 1, 5]
@@ -712,37 +805,43 @@ def gen_operators(fname, tier):
     binops = {'op.add': ('any', 'any'), 'op.sub': ('any', 'any'), 'op.mul': ('any', 'any'), 'op.truediv': ('any', 'nz'), 'op.floordiv': ('any', 'nz'), 'op.mod': ('any', 'nz'),
               'op.pow': ('pos', 'exp'), 'divmod': ('any', 'nz'), 'op.and_': ('any', 'any'), 'op.or_': ('any', 'any'), 'op.lt': ('any', 'any'), 'op.gt': ('any', 'any'), 'op.eq': ('any', 'any')}
     n = Counter()
-    shapes = [(), (3,), (2, 1), (2, 3)]
+    R = Rot()
+    shapes = [(), (3,), (2, 3)] if tier == 'quick' else [(), (3,), (2, 1), (2, 3)]
+    dpairs = [(d1, d2) for d1 in DT for d2 in DT]
     for name, (v1, v2) in binops.items():
         for s1 in shapes:
             for s2 in shapes:
-                for d1 in DT:
-                    for d2 in DT:
-                        pairs = kindpairs(d1, d2)
-                        k1, k2 = pairs[n() % len(pairs)]
-                        yield case(name, d1 + d2, OP(name, A(k1, s1, d1, v1, 0), A(k2, s2, d2, v2, 1)))
+                j = n()
+                for d1, d2 in dpairs if tier != 'quick' or (s1, s2) == ((2, 3), (3,)) else [dpairs[(5 * j + 4 * q + q // 4) % 16] for q in range(6)]:
+                    pairs = kindpairs(d1, d2)
+                    if name == 'op.pow' and d1 in 'bi' and d2 in 'bi':
+                        pairs = [(k1, k2) for k1, k2 in pairs if k2 != 'arg']
+                    k1, k2 = R.pick(pairs)
+                    yield case(name, d1 + d2, OP(name, A(k1, s1, d1, v1, 0), A(k2, s2, d2, v2, 1)))
         for d in DT:  # reflected with python scalars
-            k = kind_at(d, n())
-            yield case(name, d + 'i:pyscalar', OP(name, L(2), A(k, (2, 3), d, v2, 0)))
-            yield case(name, d + 'f:pyscalar', OP(name, A(k, (2, 3), d, v1, 0), L(.5)))
+            k = R.kind(d)
+            if not (name == 'op.pow' and d in 'bi' and k == 'arg'):
+                yield case(name, 'i' + d, OP(name, L(2), A(k, (2, 3), d, v2, 0)))
+            yield case(name, d + 'f', OP(name, A(k, (2, 3), d, v1, 0), L(.5)))
     for name in ('op.neg', 'op.pos', 'op.abs', 'op.invert'):
         for s in SH:
             for d in DT:
-                yield case(name, d, OP(name, A(kind_at(d, n()), s, d, 'any', n() % 3)))
+                yield case(name, d, OP(name, A(R.kind(d), s, d, 'any', R.slot())))
     for s1, s2 in [((3,), (3,)), ((2, 3), (3,)), ((3,), (3, 2)), ((2, 3), (3, 2)), ((2, 2, 3), (3, 2)), ((2, 3), (2, 3)), ((), (3,))]:
         for d1 in DT:
             for d2 in DT:
                 pairs = kindpairs(d1, d2)
-                k1, k2 = pairs[n() % len(pairs)]
-                yield case('op.matmul', d1 + d2, OP('op.matmul', A(k1, s1, d1, 'any', 0), A(k2, s2, d2, 'any', 1)))
+                k1, k2 = R.pick(pairs)
+                yield case('op.matmul', _contraction_class(s1, s2) + ':' + dcls(d1 + d2), OP('op.matmul', A(k1, s1, d1, 'any', 0), A(k2, s2, d2, 'any', 1)))
 
 
 def gen_methods(fname, tier):
     n = Counter()
+    R = Rot()
     for s in SH + [(2, 2, 3)]:
         nd = len(s)
         for d in DT:
-            x = lambda: A(kind_at(d, n()), s, d, 'any', n() % 3)
+            x = lambda: A(R.kind(d), s, d, 'any', R.slot())
             for name in ('attr.T', 'attr.real', 'attr.imag', 'attr.shape', 'attr.ndim', 'attr.size'):
                 yield case(name, d, OP(name, x()))
             yield case('method.conjugate', d, OP('method.conjugate', x()))
@@ -769,16 +868,12 @@ def _core(d):
         ('square', lambda x: OP('numpy.square', x)),
         ('mulc', lambda x: OP('numpy.multiply', x, c2)),
         ('adda', lambda x: OP('numpy.add', half, x)),
-        ('sub-self-T', lambda x: OP('numpy.subtract', x, OP('numpy.multiply', x, c2))),
         ('gt', lambda x: OP('numpy.greater', x, half)),
         ('sum0', lambda x: OP('numpy.sum', x, L(0))),
         ('sum-1', lambda x: OP('numpy.sum', x, L(-1))),
-        ('sumall', lambda x: OP('numpy.sum', x)),
-        ('prod-1', lambda x: OP('numpy.prod', x, L(-1))),
         ('T', lambda x: OP('numpy.transpose', x)),
         ('swap', lambda x: OP('numpy.swapaxes', x, L(0), L(-1))),
         ('i0', lambda x: OP('getitem', x, L(0))),
-        ('i-1last', lambda x: OP('getitem', x, TUP(['ell'], L(-1)))),
         ('rev', lambda x: OP('getitem', x, TUP(['ell'], ['sl', None, None, -1]))),
         ('new1', lambda x: OP('getitem', x, TUP(['sl', None, None, None], ['new']))),
         ('tail', lambda x: OP('getitem', x, ['sl', 1, None, None])),
@@ -786,31 +881,30 @@ def _core(d):
         ('fnidx', lambda x: OP('getitem', x, A('ielem', (), 'i', 'idx', 0))),
         ('ravel', lambda x: OP('numpy.ravel', x)),
         ('reshape32', lambda x: OP('numpy.reshape', x, TUP(L(3), L(2)))),
-        ('reshape4', lambda x: OP('numpy.reshape', x, TUP(L(4),))),
         ('stack0', lambda x: OP('numpy.stack', LST(x, x), L(0))),
-        ('stack-1', lambda x: OP('numpy.stack', LST(x, OP('numpy.negative', x)), L(-1))),
         ('cat-1', lambda x: OP('numpy.concatenate', LST(x, x), L(-1))),
         ('take0', lambda x: OP('numpy.take', x, L([1, 0]), L(0))),
         ('einsum-last', lambda x: OP('numpy.einsum', L('...i->...'), x)),
-        ('einsum-roll', lambda x: OP('numpy.einsum', L('i...->...i'), x)),
-        ('real', lambda x: OP('numpy.real', x)),
         ('conj', lambda x: OP('numpy.conjugate', x)),
-        ('bcast', lambda x: OP('numpy.broadcast_to', x, TUP(L(2), L(2), L(3)))),
         ('matT', lambda x: OP('numpy.matmul', x, OP('numpy.transpose', x))),
-        ('norm-1', lambda x: OP('numpy.linalg.norm', x, axis=L(-1))),
     ] + ([('sin', lambda x: OP('numpy.sin', x)), ('div', lambda x: OP('numpy.true_divide', x, half))] if d in 'fc' else
          [('mod', lambda x: OP('numpy.mod', x, c2)), ('fdiv', lambda x: OP('numpy.floor_divide', x, c2))])
 
 
 def gen_compose(fname, tier):
     n = Counter()
+    R = Rot()
     for s in ((2, 3), (2, 2)):
         for d in 'if' if tier == 'quick' else 'ifc':
             core = _core(d)
             for gname, g in core:
+                if gname == 'gt':
+                    continue  # boolean intermediates: bool arithmetic is covered (and reported) per function
                 for hname, h in core:
-                    for k in (kinds_for(d) if tier != 'quick' else [kind_at(d, n())]):
-                        x = A(k, s, d, 'any', n() % 3)
+                    if (hname, gname) in (('matT', 'new1'), ('tail', 'tail')):
+                        continue  # matmul of a length-1 core dimension / zero-length results are classes of their own
+                    for k in (kinds_for(d) if tier != 'quick' else [R.kind(d)]):
+                        x = A(k, s, d, 'any', R.slot())
                         yield case('compose', hname + '.' + gname, h(g(x)))
 
 
